@@ -466,7 +466,7 @@ func (g *streamGen) fault(fi int, data []byte, ref *RefResult, kinds []string) *
 		f.Off = off()
 		f.WithData = t.Chance(1, 2)
 		f.Once = t.Chance(1, 4)
-		f.ErrKind = []string{"", "", "", "wrapped-eof", "unexpected-eof", "wrapped-unexpected", "text-eof", "closed-pipe", "no-progress", "path-eof", "timeout"}[t.Draw(11)]
+		f.ErrKind = []string{"", "", "", "wrapped-eof", "unexpected-eof", "wrapped-unexpected", "text-eof", "closed-pipe", "no-progress", "path-eof", "timeout", "eagain", "eintr"}[t.Draw(13)]
 	case "CORRUPT":
 		f.Off = off()
 		switch t.Weighted(4, 1, 1) {
